@@ -7,7 +7,7 @@
    layers of the real stack; the abstract parts of DictZipBlobStore and CachedBlobStore are instantiated with the
    stand-ins of their model files (the theorems say the observations do not depend on the choice). *)
 From ZV.Common Require Import Base Run.
-From ZV.C03 Require Import Model ModelStore ModelWrap ModelCached ModelDictZip ModelPlain ModelZero ModelBatch ModelNltb ModelFromData.
+From ZV.C03 Require Import Model ModelStore ModelWrap ModelCached ModelDictZip ModelPlain ModelZero ModelBatch ModelNltb ModelFromData ModelZeroFinish.
 Open Scope N_scope.
 
 Definition ctable := list (bytes * bytes).
@@ -149,7 +149,9 @@ Inductive xcase :=
    (get_by_key + contains_key per key, get + contains for ids 0..n+1, len) *)
 | XNltb (batch_opt : bool) (es : list entry) (kexp : list (bytes * list N)) (iexp : list (list N)) (len : N)
 (* MemoryBlobStore::from_data(map) then a history; `[[0]]` when from_data panicked *)
-| XFromData (m : list (N * bytes)) (ops : list mop) (expect : list (list N)).
+| XFromData (m : list (N * bytes)) (ops : list mop) (expect : list (list N))
+(* ZeroLengthBlobStore::finish(n) then a history *)
+| XZeroFinish (n : N) (ops : list xop) (expect : list (list N)).
 
 Definition check_xcase (x : xcase) : bool :=
   match x with
@@ -180,4 +182,5 @@ Definition check_xcase (x : xcase) : bool :=
       end
   | XNltb batch_opt es kexp iexp len => check_nltb batch_opt es kexp iexp len
   | XFromData m ops expect => check_from_data m ops expect
+  | XZeroFinish n ops expect => check_zero_finish n ops expect
   end.
